@@ -11,7 +11,7 @@ for s in $(seq "$a" "$b"); do
     line=$(echo "$out" | grep "tier=quick" | tail -1)
     inc=$(echo "$out" | grep -c INCONCLUSIVE)
     echo "seed=$s $id rc=$rc inc=$inc $line"
-    if [ "$rc" != 0 ]; then bad=$((bad+1)); echo "$out" | grep -E "VIOLATION|violation detail|HARNESS" | head -5; fi
+    if [ "$rc" != 0 ]; then bad=$((bad+1)); echo "$out" | grep -E "VIOLATION|violation detail|HARNESS|Error" | head -6; fi
   done
 done
 echo "SOAK DONE bad=$bad"
